@@ -235,6 +235,7 @@ type Scenario struct {
 	freshRef             map[int]*freshRec // per day: parameters of the reference run with a forced re-evaluation (not serialised)
 	OwnFertRows          []FertRow         `json:",omitempty"` // rows added to the fertiliser table of the project's own parameter folder
 	OwnFertFront         []bool            `json:",omitempty"` // ... listed in front of the shipped rows (else behind them)
+	ReducedTablesOnly    string            `json:",omitempty"` // "" = both texture tables lack the texture, else only the named one (PARCAP.TRU / HYPAR.TRU)
 	ReducedTablesWithout string            // the project runs with a parameter folder of its own whose texture tables lack this texture
 	OwnNFunction         map[string]int    `json:",omitempty"` // YAML crop parameter file -> N-content function (7, 8, 9) it carries in the project's own parameter folder
 	AliasCrops           map[string]string // crop code of the built-in table without a shipped parameter file -> shipped crop whose parameter file the project supplies under that name
